@@ -133,6 +133,7 @@ def bare_gear(c, cls):
     contracts/gears.py; bypassing it here keeps these obligations free of the gear geometry)"""
     C = G.classes()[cls]
     g = object.__new__(C)
+    g.__dict__["_pycv_bypassed_ctor"] = True      # see harness.call: a missing private attribute is then a harness limit
     d = g.__dict__
     d["_MechanicalObject__name"] = "gear"
     for f in ("angular_position", "angular_speed", "angular_acceleration", "torque", "driving_torque", "load_torque"):
@@ -170,6 +171,7 @@ def simulated(c, gear_cls, hist, gear_data=None, with_current=True):
     gear = bare_gear(c, gear_cls)
     motor.__dict__["_MotorBase__drives"] = gear
     pt = object.__new__(PT.Powertrain)
+    pt.__dict__["_pycv_bypassed_ctor"] = True      # see harness.call: a missing private attribute is then a harness limit
     pt.__dict__["_Powertrain__elements"] = (motor, gear)
     pt.__dict__["_Powertrain__self_locking"] = False
     times = []
